@@ -735,7 +735,7 @@ def main(chk):
         return {"syn": {"seed": rng.randrange(1 << 30), "params": p}}
 
     # sweeps
-    nsweep = chk.pick(8, 150)
+    nsweep = chk.pick(8, 400)
     params = idbgen.catalogue(rng, nsweep, minors=(3, 3, 3, 2, 1, 0))
     for p in params:
         p.pop("alt_names", None)
@@ -747,7 +747,7 @@ def main(chk):
     for h, o in reals:
         add({"kind": "sweep", "src": {"real": {"header": h, "opts": _c12.BACKENDS[o]}}})
     # lookups
-    for i in range(chk.pick(5, 60)):
+    for i in range(chk.pick(5, 150)):
         pa = dict(size=rng.choice(("small", "medium")), strings=rng.choice(("mixed", "hostile", "plain")),
                   flags="random", dup_names=rng.choice((0.0, 0.2, 0.5)))
         # the second file gets plain (random-identifier) names so that its type names do not collide with the first
@@ -761,7 +761,8 @@ def main(chk):
          "seed": rng.randrange(1 << 30), "mutate": 10})
     # unique-name tables: every size 0..12
     for k in range(0, 13):
-        for style in (("numeric", "prefixes") if chk.quick() else ("numeric", "prefixes", "random", "numeric")):
+        for style in (("numeric", "prefixes") if chk.quick() else
+                      ("numeric", "prefixes", "random", "numeric", "prefixes", "random")):
             add({"kind": "unique", "size": k, "style": style, "seed": rng.randrange(1 << 30),
                  "modules_before": rng.choice((0, 0, 1, 3))})
     # fptr tables
